@@ -279,6 +279,48 @@ def run_sequential(spec):
             wit.append({"key": "ids.end_to_end.zero", "detail": {"t": t}})
         evals += 1
         hashes.add(h64("e2e-init", low))
+    # the random part of a start value at the ends of what the random source may deliver: whatever function of the
+    # `random` module the generators draw with, its smallest and its largest legal outcome (and one in between)
+    import diameter.node._helpers as helpers
+    real_random = helpers.random
+    try:
+        for mode in ("min", "max", "mid"):
+            helpers.random = ExtremeRandom(real_random, mode)
+            for t in [(1_700_000_000 & ~0xfff) | low for low in range(0, 4096, 5)] + [0xfff, 0xffe, 1 << 31, (1 << 32) - 2]:
+                try:
+                    g = SequenceGenerator(t)
+                    first = g.sequence
+                    nxt = [g.next_sequence() for _ in range(2)]
+                except Exception as e:
+                    wit.append({"key": f"ids.end_to_end.raises.{type(e).__name__}",
+                                "detail": {"t": t, "random_outcomes": mode, "exc": repr(e)[:120]}})
+                    break
+                if (first >> 20) != (t & 0xfff) or not 0 < first <= MAX32:
+                    wit.append({"key": "ids.end_to_end.initial_high_bits",
+                                "detail": {"t": t, "seq": hex(first), "random_outcomes": mode}})
+                    break
+                if 0 in nxt or len(set(nxt)) != 2 or max(nxt) > MAX32:
+                    wit.append({"key": "ids.sequence.after_extreme_start",
+                                "detail": {"t": t, "first": hex(first), "next": [hex(v) for v in nxt], "random_outcomes": mode}})
+                    break
+                evals += 1
+            hashes.add(h64("e2e-extreme-random", mode))
+            try:
+                g = SequenceGenerator()
+                vals = [g.sequence] + [g.next_sequence() for _ in range(3)]
+                if 0 in vals[1:] or not 0 < vals[0] <= MAX32 or max(vals) > MAX32 or len(set(vals[1:])) != 3:
+                    wit.append({"key": "ids.sequence.after_extreme_start",
+                                "detail": {"vals": [hex(v) for v in vals], "random_outcomes": mode}})
+                sg = SessionGenerator("node.verif.example")
+                sids = [sg.next_id() for _ in range(3)]
+                if any(not SESSION_RE.match(x) for x in sids) or len(set(sids)) != 3:
+                    wit.append({"key": "ids.session.format", "detail": {"sids": sids, "random_outcomes": mode}})
+            except Exception as e:
+                wit.append({"key": f"ids.sequence.raises.{type(e).__name__}",
+                            "detail": {"random_outcomes": mode, "exc": repr(e)[:120]}})
+            evals += 1
+    finally:
+        helpers.random = real_random
     # through the Node, on the virtual clock
     for off in (0, 1, 4095, 4096, 123456):
         h = Harness()
@@ -339,6 +381,38 @@ def run_stress(spec):
             "coverage": {"free_running_draws": n}}
 
 
+class ExtremeRandom:
+    """Stands in for the `random` module inside diameter.node._helpers: every draw returns the smallest / largest /
+    a middle legal outcome of the function called.  Any such outcome is one the real generator can produce."""
+
+    def __init__(self, real, mode):
+        self.real, self.mode = real, mode
+        self.calls = 0
+
+    def _pick(self, lo, hi):
+        self.calls += 1
+        return {"min": lo, "max": hi, "mid": (lo + hi) // 2}[self.mode]
+
+    def randint(self, a, b):
+        return self._pick(a, b)
+
+    def getrandbits(self, k):
+        return self._pick(0, (1 << k) - 1)
+
+    def randrange(self, start, stop=None, step=1):
+        if stop is None:
+            start, stop = 0, start
+        n = (stop - start + step - 1) // step
+        return start + step * self._pick(0, n - 1)
+
+    def random(self):
+        self.calls += 1
+        return {"min": 0.0, "max": 1.0 - 2.0 ** -53, "mid": 0.5}[self.mode]
+
+    def __getattr__(self, name):
+        return getattr(self.real, name)
+
+
 class ScriptedRandom:
     """Stands in for the `random` module inside diameter.node._helpers: randint returns what the scenario says
     (clamped to the asked range).  Any such outcome is one the real generator can produce."""
@@ -349,6 +423,11 @@ class ScriptedRandom:
     def randint(self, a, b):
         v = self.plan(a, b)
         return min(max(v, a), b) if v is not None else self.real.randint(a, b)
+
+    def getrandbits(self, k):
+        # the same draw made with another function of the module is scripted all the same
+        v = self.plan(0, (1 << k) - 1)
+        return min(max(v, 0), (1 << k) - 1) if v is not None else self.real.getrandbits(k)
 
     def __getattr__(self, name):
         return getattr(self.real, name)
@@ -375,7 +454,7 @@ def run_node_aligned(spec):
                 def plan(a, b, st=st):
                     if b == 0x000fffff:          # the 20 random bits of the end-to-end start value
                         return low20
-                    if (a, b) == (1, 0xffffffff) and "e0" in st:
+                    if a in (0, 1) and b == 0xffffffff and "e0" in st:
                         return (st["e0"] + delta) & 0xffffffff or 1
                     return None
 
